@@ -74,7 +74,8 @@ Definition bname (b : board) : str := match b with Board n _ _ _ _ => n end.
 
 Definition is_nil {A} (l : list A) : bool := match l with [] => true | _ => false end.
 
-Inductive event := RemoveAll (p : path) | WriteFile (p : path).
+Inductive event := RemoveAll (p : path) | WriteFile (p : path)
+                   | Refuse.   (* the CLI stops with an error before touching the file system *)
 
 Definition sub (cond : bool) (stem : path) (k : str) : path := if cond then join stem k else stem.
 
@@ -94,6 +95,26 @@ Fixpoint render (ext : str) (out : path) (b : board) : list event :=
       ++ (if fo then [] else [WriteFile (file_of ext (if kids then join stem s_index else stem))])
   end.
 
+(* d2cli validateBoardFileName (since b8f1f57d8): a board name is refused when one of its elements,
+   split at '/', is ".." *)
+Definition has_dotdot (name : str) : bool := existsb (fun s => str_eqb s s_dotdot) (split_slash name).
+
+Fixpoint names_below (b : board) : list str :=
+  match b with
+  | Board _ _ ls ss ts =>
+      flat_map (fun c => bname c :: names_below c) ls
+      ++ flat_map (fun c => bname c :: names_below c) ss
+      ++ flat_map (fun c => bname c :: names_below c) ts
+  end.
+
+Definition refused (root : board) : bool := existsb has_dotdot (names_below root).
+
+(* d2cli compile(): resolveLinks walks the whole tree first and returns the validation error of any
+   board name before render() has done anything; otherwise render() runs (its own copy of the check
+   can then no longer fire) *)
+Definition cli_events (ext : str) (out : path) (root : board) : list event :=
+  if refused root then [Refuse] else render ext out root.
+
 Definition writes (es : list event) : list path :=
   flat_map (fun e => match e with WriteFile p => [p] | _ => [] end) es.
 Definition removes (es : list event) : list path :=
@@ -101,7 +122,7 @@ Definition removes (es : list event) : list path :=
 
 (* outputs : outpath -> board tree -> files written, directories removed *)
 Definition outputs (ext : str) (out : path) (b : board) : list path * list path :=
-  (writes (render ext out b), removes (render ext out b)).
+  (writes (cli_events ext out b), removes (cli_events ext out b)).
 
 Fixpoint count_boards (b : board) : nat :=
   match b with
@@ -186,6 +207,7 @@ Definition step (f : fsys) (e : event) : fsys * bool :=
         if is_dir f p then ({| files := files f; dirs := ds |}, false)
         else ({| files := filter (fun e => negb (path_eqb (fst e) p)) (files f) ++ [(p, 1)];
                  dirs := ds |}, true)
+  | Refuse => (f, false)
   end.
 
 (* the run stops at the first failing operation (render returns the error) *)
@@ -210,6 +232,12 @@ Definition no_deletion_outside (ext : str) (out : path) (bf af : list (path * N)
 Definition one_file_per_board (ext : str) (out : path) (tree : board) (af : list (path * N)) (failed : bool) : bool :=
   negb failed
   && Nat.eqb (length (filter (fun e => inside_file_b ext out (fst e) && N.eqb (snd e) 1) af)) (count_boards tree).
+
+(* a tree with a refused board name: the CLI must fail and leave every file as it was *)
+Definition refused_cleanly (bf af : list (path * N)) (bd ad : list path) (failed : bool) : bool :=
+  failed
+  && forallb (fun e => existsb (entry_eqb e) bf) af && forallb (fun e => existsb (entry_eqb e) af) bf
+  && forallb (fun d => existsb (path_eqb d) bd) ad && forallb (fun d => existsb (path_eqb d) ad) bd.
 
 (* the directories above the output location exist (the CLI is given an output path in an existing
    directory; otherwise MkdirAll legitimately creates the missing ancestors) *)
